@@ -255,7 +255,7 @@ PROPS = {
         "claim": "Datagram codec and size arithmetic: for every quarter stream id and payload the encoder emits varint(qid)||payload with the exact announced size (all-or-nothing), the decoder returns exactly the remaining bytes as payload (zero-copy) for every input, rejects ids > 2^60-1 / truncated ids with H3_DATAGRAM_ERROR, and the header overhead used for the size contract is exactly the varint length.",
         "note": "Payload length bounded (16 quick / 1200 thorough) on Kani; header part complete. Assumed: quinn refuses exactly frames above its max_datagram_size; loss/reordering are transport behaviour. Not decided: Driver::receive_datagram session filtering (async).",
         "kani": DATAGRAM_KANI + [DRIVER_DGRAM_HDR],
-        "verus": [],
+        "verus": [V("datagram")],
         "not_decided": ["quinn::Connection::send_datagram limit", "per-session filtering in the worker"],
     },
     "C04": {
@@ -281,7 +281,7 @@ PROPS = {
         "kani": [VARINT_KANI[2], VARINT_KANI[6], VARINT_KANI[7], VARINT_KANI[8], VARINT_KANI[9], FRAME_READ_20, FRAME_READ_4200, FRAME_KIND_KANI[1],
                  STREAM_HEADER_KANI[0], STREAM_KIND_KANI[1], DATAGRAM_KANI[4], CAPSULE_KANI[0], CAPSULE_KANI[1], CAPSULE_KANI[2], CAPSULE_KANI[3]]
                 + QPACK_INT_DEC + QPACK_MISC + [IDS_KANI[4], IDS_KANI[7], SETTING_ID_KANI[2]],
-        "verus": [V("frame", pair=("proto", "p_frame_read_matches_reference_20")), V("qpack_decode", pair=("proto", "p_qpack_decode_integer_n7"))],
+        "verus": [V("frame", pair=("proto", "p_frame_read_matches_reference_20")), V("qpack_decode", pair=("proto", "p_qpack_decode_integer_n7")), V("settings", pair=("proto", "c_settingid_parse"))],
         "not_decided": ["Decoder::decode loop / decode_string / Settings::with_frame under Kani (containers)"],
     },
     "C12": {
@@ -289,7 +289,7 @@ PROPS = {
         "claim": "Sans-IO typestate layer: on each of the four stream roles, from an arbitrary first-frame state, the accept/reject verdict and the error code for every frame kind equal the RFC 9114 7.2 / WebTransport-draft rule table; invalid session ids -> H3_ID_ERROR, oversize -> H3_EXCESSIVE_LOAD, unknown uni stream type -> H3_STREAM_CREATION_ERROR; the 15 error codes and the reserved/registered setting ids equal their registry values.",
         "note": "Quick tier: well-formed single frames (bounded). Thorough tier: every byte string <= 14 bytes. Not decided: the driver's reaction (RemoteSettingsStream::run, handle_uni_h3_stream, missing/duplicate SETTINGS, closed critical streams) - async over quinn.",
         "kani": STREAM_KANI_QUICK[:5] + STREAM_KANI_THOROUGH + MISC_KANI[:1] + SETTING_ID_KANI[1:3],
-        "verus": [V("frame", pair=("proto", "p_frame_read_matches_reference_20"))],
+        "verus": [V("frame", pair=("proto", "p_frame_read_matches_reference_20")), V("settings", pair=("proto", "c_settingid_parse"))],
         "not_decided": ["driver-level rules: missing/repeated SETTINGS, duplicated/closed critical streams, what is put on the wire"],
     },
     "C13": {
@@ -298,7 +298,7 @@ PROPS = {
         "note": "Skip loop: Kani shows base case + one step per typestate (thorough tier, bounded); quick tier exercises one leading unknown frame on well-formed input. Unknown frames above the 4096-byte parse limit are refused like known ones (H3_EXCESSIVE_LOAD). Not decided: driver reactions to unknown unidirectional stream types (async).",
         "kani": FRAME_KIND_KANI + [FRAME_READ_20, FRAME_READ_4200] + STREAM_KANI_QUICK[:4] + STREAM_KANI_THOROUGH[:4]
                 + [STREAM_KIND_KANI[0], SETTING_ID_KANI[0], SETTING_ID_KANI[2], CAPSULE_KANI[0], CAPSULE_KANI[1]],
-        "verus": [V("frame", pair=("proto", "p_frame_read_matches_reference_20"))],
+        "verus": [V("frame", pair=("proto", "p_frame_read_matches_reference_20")), V("settings", pair=("proto", "c_settingid_parse"))],
         "not_decided": ["unknown unidirectional stream types in the worker", "ConnectStream capsule loop"],
     },
     "C14": {
